@@ -180,8 +180,9 @@ def confirm(pid, outcome, o, meta, workdir):
     cmd = ["cargo", "kani", "-Z", "unstable-options", "--ignore-global-asm", "-Z", "stubbing", "--lib",
            "--target-dir", o.target, "--exact", "--harness", h.full, "--no-assertion-reach-checks",
            "-Z", "concrete-playback", "--concrete-playback=print", "--output-format", "terse"]
+    cmd += ["--cbmc-args", "--max-field-sensitivity-array-size", str(h.fs_array)]
     if getattr(outcome, "uset", None):
-        cmd += ["--cbmc-args", "--unwindset", ",".join(outcome.uset)]
+        cmd += ["--unwindset", ",".join(outcome.uset)]
     env = dict(os.environ, CARGO_NET_OFFLINE="true", CARGO_TERM_COLOR="never")
     try:
         with open(log, "w") as lf:
